@@ -77,6 +77,8 @@ type c20Setting struct {
 	// agedFiles: what is put in place carries a modification time in the past (a file prepared earlier and moved in,
 	// a roll-back to an older file): content decides, not timestamps
 	agedFiles bool
+	// missing: the CA file does not exist yet; loading must fail (not pool anything) until it appears
+	missing bool
 
 	cfg     *oidcv1.OIDCConfig
 	configs []*tls.Config // every pointer LoadTLSConfig returned for this setting
@@ -215,7 +217,11 @@ func c20Prop(c *sim.Case) {
 			if s.viaLink {
 				c.Class("ca-file-via-symlink")
 			}
-			if sim.Weighted(c, "file-empty-at-load", 4, 1) == 1 {
+			if sim.Weighted(c, "file-missing-at-first", 6, 1) == 1 {
+				_ = os.Remove(s.file)
+				s.missing = true
+				c.Class("ca-file-missing-at-first-load")
+			} else if sim.Weighted(c, "file-empty-at-load", 4, 1) == 1 {
 				// the file exists but holds nothing yet (a volume that is populated later): no CA of its own until a
 				// later content is picked up - and, a CA being configured, skip_verify_peer_cert stays ignored
 				s.put(nil)
@@ -286,6 +292,16 @@ func c20Prop(c *sim.Case) {
 		}
 		close(start)
 		wg.Wait()
+		if s.missing {
+			for _, r := range out {
+				if r.err == nil {
+					c.Violation("load-succeeds-without-ca-file", "LoadTLSConfig(%v) succeeded although the configured CA file does not exist", s)
+				}
+			}
+			s.loadedAt = time.Time{}
+			c.Logf("load setting %d x%d with the CA file missing: refused", si, concurrent)
+			return
+		}
 		for _, r := range out {
 			if r.err != nil {
 				c.Violation("load-error", "LoadTLSConfig(%v): %v", s, r.err)
@@ -312,6 +328,9 @@ func c20Prop(c *sim.Case) {
 
 	handshake := func(si int, srv string) {
 		s := sets[si]
+		if s.missing {
+			return // nothing to connect with until the file is there
+		}
 		if len(s.configs) == 0 && !(s.caKind == 0 && s.skip == nil) {
 			load(si, 1)
 		}
@@ -420,6 +439,16 @@ func c20Prop(c *sim.Case) {
 			load(si, 2+sim.Pick(c, "par", 3))
 		case 2:
 			if s.caKind != 2 {
+				continue
+			}
+			if s.missing {
+				// a failed attempt first, then the file appears: the next load starts from scratch with this content
+				load(si, 1)
+				s.missing = false
+				s.loadCA = sim.Pick(c, "appearing-ca", 3)
+				s.put(e.cas[s.loadCA].PEM)
+				c.Logf("CA file of setting %d appears with CA %d", si, s.loadCA)
+				load(si, 1)
 				continue
 			}
 			if len(s.configs) == 0 {
